@@ -1,19 +1,20 @@
 (** C13 — reads return the latest write through dirty set, cache, database and reopen.
     Only statements, each closed by [exact]. *)
 From BX Require Import Base.Prelude Base.Sha256 Model.JsonAcct Model.Merkle Model.StateLedger Model.LedgerSpec
-  Proofs.LedgerWitness Proofs.RefineMain Proofs.RefineProps.
+  Proofs.LedgerWitness Proofs.RefineSim Proofs.RefineQuery Proofs.RefineMain Proofs.RefineProps.
 Local Open Scope N_scope.
 
 (** Refinement.  For EVERY operation sequence made of the proved operations (get/set balance and
-    nonce, GetCode, GetState, SetState incl. deletion, AddState, Snapshot, RevertToSnapshot with
-    nested snapshots, Finalise, Clear, FlushDirtyData, Commit, RollbackState, Version, cache
-    evictions, reopen, raw dumps), run from the empty ledger on the repaired model, every
+    nonce, GetCode, GetState, SetState incl. deletion, AddState, QueryByPrefix, Snapshot,
+    RevertToSnapshot with nested snapshots, Finalise, Clear, FlushDirtyData, Commit, RollbackState,
+    Version, cache evictions, reopen, getter dumps, raw dumps), run from the empty ledger on the
+    repaired model, every
     observable agrees with the reference specification (finite maps + snapshot stack + committed
     history) for as long as the sequence stays inside the domain [wf_thm_b]: a commit follows its
     flush directly with the next height; a revert names no snapshot invalidated by AddState /
     Clear / Flush / Rollback; evictions happen between transactions.  Values are compared modulo
-    nil = empty.  NOT covered by the theorem (tied by correspondence only): Query, Dump, SetCode,
-    GetCommittedState. *)
+    nil = empty.  NOT covered by the theorem (tied by correspondence only): SetCode (histories with
+    contract code) and GetCommittedState. *)
 Theorem C13_read_refines : forall (e : env) (ops : list op),
   forallb proved_op ops = true ->
   spec_agree_P wf_thm_b false e spec0 ops (snd (run e cfg_fixed st0 ops)).
@@ -31,6 +32,18 @@ Theorem C13_predicate_bool_iff : forall gate strict e ops outs s i,
   fst (spec_agree_g gate strict e s ops outs i) = None <-> spec_agree_P gate strict e s ops outs.
 Proof. exact spec_agree_iff. Qed.
 Print Assumptions C13_predicate_bool_iff.
+
+(** C13_query_live (repaired configuration): in every state related to a specification state, the
+    answer of QueryByPrefix, read modulo nil = empty, is exactly the sorted list of the non-empty
+    values of the keys with that prefix, one per key; the call changes no view.  (It is also part
+    of C13_read_refines; stated separately because the pinned tree refutes it three ways, below.) *)
+Theorem C13_query_live : forall (e : env) (m : st) (s : spec) (a : N) (p : bytes),
+  Sim e m s -> smap_wf (sp_cur s) ->
+  let '(m', x) := step e cfg_fixed m (Query a p) in
+  let '(s', ex) := spec_step e s (Query a p) x in
+  Sim e m' s' /\ sexp_match false ex x = true /\ s_db m' = s_db m.
+Proof. exact step_query. Qed.
+Print Assumptions C13_query_live.
 
 (** C13_revert_restores is the instance of C13_read_refines for sequences with Snapshot /
     RevertToSnapshot: the specification's revert restores the map saved by the snapshot (by
